@@ -13,6 +13,7 @@ stall is a violation."""
 import os, random, threading, time
 from lab import base, httpref
 from lab.lab import Lab, run_cases, Resp, Conn, fetch
+from lab.x_relay import start_lab
 from lab.origin import new_rid, make_body
 
 PREFETCH = [0, 1, 3, 10]
@@ -303,7 +304,7 @@ def run(a, res):
         mine = [c for c in cases if c["prefetch"] == pf]
         if not mine:
             return
-        lab = Lab(a, res, handler=handler, conf=f"pipeline_prefetch {pf}\ncache_mem 64 MB\nmaximum_object_size_in_memory 1 MB\n")
+        lab = start_lab(a, res, handler=handler, conf=f"pipeline_prefetch {pf}\ncache_mem 64 MB\nmaximum_object_size_in_memory 1 MB\n")
         try:
             with ThreadPoolExecutor(4) as ex:
                 list(ex.map(make_one(lab, pf), mine))
